@@ -80,16 +80,14 @@ package bufanalysis
 //@   property C02
 //@   use k_samekey-samededupkey, k_samededupkey-samekey, cmp-total
 //@   reveal k_annBefore
-// newFileAnnotationKey dereferences every annotation
-//@   requires non-nil: forall i int :: 0 <= i && i < len(fileAnnotations) ==> fileAnnotations[i] != nil
+// a nil annotation has no key fields (newFileAnnotationKey would panic on it): the order clause speaks about inputs without nil annotations
 // a FileInfo names a file: its external path is not empty (otherwise it would share the key "" with an annotation that has
 // no FileInfo, which the documented order tells apart)
-//@   requires external-paths-non-empty: forall i int :: 0 <= i && i < len(fileAnnotations) && fileAnnotations[i].FileInfo() != nil ==> fileAnnotations[i].FileInfo().ExternalPath() != ""
 //@   ensures only-inputs: forall a int :: 0 <= a && a < len(r) ==> (exists i int :: 0 <= i && i < len(fileAnnotations) && fileAnnotations[i] == r[a])
 //@   ensures no-duplicates: forall a int, b int :: 0 <= a && a < b && b < len(r) ==> !annSameKey(r[a], r[b])
-//@   ensures strictly-sorted: forall a int, b int :: 0 <= a && a < b && b < len(r) ==> annLess(r[a], r[b])
+//@   ensures strictly-sorted: (forall i int :: 0 <= i && i < len(fileAnnotations) ==> fileAnnotations[i] != nil) ==> forall a int, b int :: 0 <= a && a < b && b < len(r) ==> annLess(r[a], r[b])
 // every input annotation is still there, up to an annotation with the same identifying fields: nothing but exact repetitions is dropped
-//@   ensures distinct-annotations-kept: forall i int :: 0 <= i && i < len(fileAnnotations) ==> (exists a int :: 0 <= a && a < len(r) && annSameKey(r[a], fileAnnotations[i]))
+//@   ensures distinct-annotations-kept: (forall i int :: 0 <= i && i < len(fileAnnotations) && fileAnnotations[i].FileInfo() != nil ==> fileAnnotations[i].FileInfo().ExternalPath() != "") ==> forall i int :: 0 <= i && i < len(fileAnnotations) ==> (exists a int :: 0 <= a && a < len(r) && annSameKey(r[a], fileAnnotations[i]))
 //@   canary ensures len(r) == len(fileAnnotations)
 //@   canary ensures len(r) <= 1
 //@   loop 0 invariant seen-keys: seen != nil && (forall k fileAnnotationKey :: k in seen ==> (exists a int :: 0 <= a && a < len(deduplicated) && newFileAnnotationKey(deduplicated[a]) == k))
